@@ -59,6 +59,7 @@ def run(ctx):
     default_m_table(ctx, ctx.facts.getters())
     none_outside_ranges(ctx, ctx.facts.getters())
     collect_orbits_shape(ctx, ctx.facts.getters())
+    builders(ctx, ctx.facts.getters())
     ctx.clauses.append("storage layout of the operation table: size * (dim + 1) cells, idx a bijection, grow() consistent (T4, expressions evaluated)")
     storage_layout(ctx, "T4-storage-layout", ctx.facts.getters())
     table_slots(ctx)
@@ -186,6 +187,100 @@ def none_outside_ranges(ctx, g):
         ctx.ob("T4-none-outside-ranges", name, "Some(..) returns", "ok" if not bad and cnt else "violation",
                "no Some(..) return is reachable for any of %d out-of-range argument tuples (%d paths)" % (cnt, len(paths)) if not bad and cnt else (bad or "nothing evaluated"))
     ctx.floor("accessors that build their own Option", n, 8)
+
+
+def builders(ctx, g):
+    """every representation conversion goes through build_set / build_sym_using_vs / build_sym_using_ms: the set is filled with op(i, d) at (i, d)
+    for ALL i in 0..=dim, d in 1..=size; branching numbers are stored per adjacent index pair (i, i + 1) at the representatives of the
+    (i, i + 1)-orbits, as v(i, d) resp. m(i, d) / r(i, i + 1, d); as_partial_dsym / as_dset hand over the source's own op and v"""
+    ctx.clauses.append("build_set / build_sym_using_vs / build_sym_using_ms store op(i, d), v(i, d), m(i, d) / r(i, i+1, d) at the slot (i, d) they were asked for; as_* conversions hand over the source's op and v (T9)")
+    P = lambda b, k: ("param", k, b.debug.get(k, ""))
+
+    def payload_range(b, t):
+        r = loop_range_of_payload(b, t, g)
+        return (eval_int(r[0]), strip(r[1]), r[2]) if r else None
+
+    def some_of_call(x, f, args):
+        """x == (call(f, (args..)) as Some).0"""
+        x = strip(x)
+        if not (x[0] == "field" and x[2] == "0" and x[1][0] == "variant" and x[1][2] == "Some"):
+            return False
+        c = strip(x[1][1])
+        return is_call(c, "Fn::call") and strip(c[2][0]) == f and strip(c[2][1]) == ("agg", "tuple", tuple(args))
+    # A
+    b = ctx.body("derived::build_set")
+    ctx.scan([b])
+    sets = list(b.calls(exact="dsets::PartialDSet::set"))
+    news = [[strip(norm(b.origin(a), g)) for a in t["args"]] for _, t in b.calls("PartialDSet::new")]
+    bad = None
+    if len(sets) != 1 or news != [[P(b, 1), P(b, 2)]]:
+        bad = "not one set(..) on PartialDSet::new(size, dim)"
+    else:
+        a = [strip(norm(b.origin(x), g)) for x in sets[0][1]["args"]]
+        ri, rd = payload_range(b, a[1]), payload_range(b, a[2])
+        if not some_of_call(a[3], P(b, 3), (a[1], a[2])):
+            bad = "set(i, d, x): x is not the Some-payload of op(i, d) for the same (i, d): %s" % show(a[3], 1)[:70]
+        elif not (ri and ri[0] == 0 and ri[2] and (is_call(ri[1], "::dim") or ri[1] == P(b, 2) or (ri[1][0] == "field" and ri[1][2] == "dim")) and rd and rd[0] == 1 and rd[2] and (is_call(rd[1], "::size") or rd[1] == P(b, 1) or (rd[1][0] == "field" and rd[1][2] == "size"))):
+            bad = "the loops are not i in 0..=dim, d in 1..=size (%s, %s)" % (ri and (ri[0], show(ri[1], 1)[:20], ri[2]), rd and (rd[0], show(rd[1], 1)[:20], rd[2]))
+    ctx.ob("T9-builders", b.name, "set(i, d, op(i, d))", "ok" if not bad else "violation", "every (i, d) in 0..=dim x 1..=size gets op(i, d) when defined" if not bad else bad)
+    # B, C
+    for fn in ("build_sym_using_vs", "build_sym_using_ms"):
+        b = ctx.body("derived::" + fn)
+        ctx.scan([b])
+        sv = list(b.calls(exact="dsyms::PartialDSym::set_v"))
+        bad = None
+        if len(sv) != 1:
+            bad = "not one set_v(..)"
+        else:
+            a = [strip(norm(b.origin(x), g)) for x in sv[0][1]["args"]]
+            I, D, X = a[1], a[2], a[3]
+            ri = payload_range(b, I)
+            src = iter_source(b, D, g)
+            src = strip(norm(src, g)) if isinstance(src, tuple) else None
+            reps = [y for y in subterms(src)] if src else []
+            reps = [y for y in reps if is_call(y, "DSet::orbit_reps_2d")]
+            plus1 = lambda t_: unov_deep(strip(t_)) == ("binop", "Add", I, ("int", 1))
+            if not (ri and ri[0] == 0 and not ri[2] and is_call(ri[1], "::dim")):
+                bad = "the index loop is not i in 0..dim() (one slot per ADJACENT pair (i, i + 1))"
+            elif not (len(reps) == 1 and strip(reps[0][2][0]) == a[0] and strip(reps[0][2][1]) == I and plus1(reps[0][2][2])):
+                bad = "the chambers are not the representatives orbit_reps_2d(i, i + 1) of the symbol being built"
+            elif fn == "build_sym_using_vs":
+                if not some_of_call(X, P(b, 2), (I, D)):
+                    bad = "set_v(i, d, x): x is not the Some-payload of v(i, d): %s" % show(X, 1)[:60]
+            else:
+                ok = X[0] == "binop" and X[1] == "Div" and some_of_call(X[2], P(b, 2), (I, D))
+                rr = strip(X[3]) if ok else None
+                ok = ok and rr[0] == "field" and rr[1][0] == "variant" and is_call(strip(rr[1][1]), "DSet::r")
+                if ok:
+                    ra = [strip(y) for y in strip(rr[1][1])[2]]
+                    ok = ra[0] == a[0] and ra[1] == I and plus1(ra[2]) and ra[3] == D
+                if not ok:
+                    bad = "set_v(i, d, x): x is not m(i, d) / r(i, i + 1, d) of the symbol being built: %s" % show(X, 1)[:80]
+        ctx.ob("T9-builders", b.name, "set_v(i, d, ..)", "ok" if not bad else "violation",
+               ("v(i, d)" if fn.endswith("vs") else "m(i, d) / r(i, i + 1, d)") + " at the representatives of the (i, i + 1)-orbits, i in 0..dim" if not bad else bad)
+    # D
+    for fn, want_v in (("as_partial_dsym", True), ("as_dset", False)):
+        b = ctx.body("derived::" + fn)
+        ctx.scan(ctx.facts.with_closures(b.name))
+        ds = P(b, 1)
+        r = strip(norm(b.local_origin(0), g))
+        bs = r if is_call(r, "derived::build_set") else (strip(r[2][0]) if is_call(r, "derived::build_sym_using_vs") else None)
+        bad = None
+        if bs is None or not is_call(bs, "derived::build_set"):
+            bad = "not built by build_set"
+        else:
+            A = [strip(y) for y in bs[2]]
+            opr = apply_closure(ctx.facts, A[2], [("local", -1, "i"), ("local", -2, "d")], g)
+            if not (A[0] == ("call", "dsets::DSet::size", (ds,)) and A[1] == ("call", "dsets::DSet::dim", (ds,))):
+                bad = "not built with the source's size() and dim()"
+            elif opr is None or strip(opr) != ("call", "dsets::DSet::op", (ds, ("local", -1, "i"), ("local", -2, "d"))):
+                bad = "op(i, d) of the copy is not ds.op(i, d): %s" % (show(opr, 1)[:60] if opr else None)
+            elif want_v:
+                vr = apply_closure(ctx.facts, strip(r[2][1]), [("local", -1, "i"), ("local", -2, "d")], g)
+                w = ("call", "dsyms::DSym::v", (ds, ("local", -1, "i"), ("binop", "Add", ("local", -1, "i"), ("int", 1)), ("local", -2, "d")))
+                if vr is None or unov_deep(strip(vr)) != w:
+                    bad = "v(i, d) of the copy is not ds.v(i, i + 1, d): %s" % (show(vr, 1)[:60] if vr else None)
+        ctx.ob("T9-builders", b.name, "copy", "ok" if not bad else "violation", "size, dim, op(i, d)%s of the source" % (", v(i, i + 1, d)" if want_v else "") if not bad else bad)
 
 
 def collect_orbits_shape(ctx, g):
